@@ -677,8 +677,8 @@ func main() {
 		QuickCases:       500,
 		ThoroughSeconds:  900,
 		CasesPerProcess:  1,
-		CaseTimeout:      60e9,
-		WatchdogTimeout:  20e9,
+		CaseTimeout:      25e9,
+		WatchdogTimeout:  8e9,
 		MinimiseBudget:   200,
 		SubprocBudget:    30,
 		Procs:            16,
